@@ -650,7 +650,11 @@ func c14CheckEncID(c c14EncID, st *stats.Run) error {
 	return guard("EncryptedSSHIdentity", []byte(fmt.Sprint(c)), func() error {
 		id, err := agessh.NewEncryptedSSHIdentity(signer.PublicKey(), pemBytes, pass)
 		if err != nil {
-			return pbt.Failf("C14/enc-identity", "NewEncryptedSSHIdentity refused a supported public key: %v", err)
+			// refusing a key file at construction is an error like any other, unless the file is a good one
+			if wantOK {
+				return pbt.Failf("C14/enc-identity", "NewEncryptedSSHIdentity refused a supported public key with its own key file: %v", err)
+			}
+			return nil
 		}
 		for round := 0; round < 2; round++ {
 			r, derr := age.Decrypt(bytes.NewReader(file), id)
